@@ -183,6 +183,20 @@ def rule_add_table(ctx, res):
                 if n == 'retain':
                     r = closure_ret(ctx, res, e[2][1])
                     good = r is not None and r[0] == 'call' and lib.cmp_kind_of_call(r[1]) == 'ne' and 'item_expiration' in fmt(r)
+                    if not good and isinstance(e[2][1], tuple) and e[2][1] and e[2][1][0] == 'closure':
+                        # whatever the local is called: with the captured value substituted the closure keeps `x != expiration(this pair)`
+                        try:
+                            _cb, cs2 = lib.closure_sym(ctx, e[2][1], res)
+                            c2 = cs2.complete_paths()
+                            r2 = c2[0].ret if len(c2) == 1 and not c2[0].conds else None
+                            if r2 is not None and r2[0] == 'call' and lib.cmp_kind_of_call(r2[1]) == 'ne':
+                                x_, y_ = strip_transparent(r2[2][0]), strip_transparent(r2[2][1])
+                                for el, cap in ((x_, y_), (y_, x_)):
+                                    if is_param(root_of(el)) and root_of(el)[1] == 2 and not field_chain(el) and isinstance(cap, tuple) and cap[0] == 'call' \
+                                            and cap[1] == 'storage::AnnounceItem::expiration' and find_calls(cap, 'AnnounceItem::new'):
+                                        good = True
+                        except (Lost, IndexError, TypeError):
+                            pass
                     seq.append('retain(!= this pair)' if good else 'retain(?)')
                 elif n == 'push':
                     v = strip_transparent(e[2][1])
